@@ -17,8 +17,8 @@ from ref import secp, sighash, taproot, sign as rsign, tx as rtx, verify
 from checks.lockstep import parse_events
 
 PROP = 'C03'
-TYPES = ['p2pk', 'multisig', 'p2pkh', 'p2sh-multisig', 'p2sh-hashlock', 'p2wpkh', 'p2wsh', 'p2sh-p2wpkh', 'p2sh-p2wsh', 'p2tr-key', 'p2tr-script', 'p2wsh-timelock', 'p2sh-timelock']
-SEGWIT = {'p2wpkh', 'p2wsh', 'p2sh-p2wpkh', 'p2sh-p2wsh', 'p2tr-key', 'p2tr-script', 'p2wsh-timelock'}
+TYPES = ['p2pk', 'multisig', 'p2pkh', 'p2sh-multisig', 'p2sh-hashlock', 'p2wpkh', 'p2wsh', 'p2sh-p2wpkh', 'p2sh-p2wsh', 'p2tr-key', 'p2tr-script', 'p2wsh-timelock', 'p2sh-timelock', 'p2wsh-hashlock']
+SEGWIT = {'p2wpkh', 'p2wsh', 'p2sh-p2wpkh', 'p2sh-p2wsh', 'p2tr-key', 'p2tr-script', 'p2wsh-timelock', 'p2wsh-hashlock'}
 SATS = {
     'p2pk': ['valid', 'wrong-key', 'altered-output', 'altered-sequence', 'altered-locktime', 'non-push-scriptsig', 'leftover-stack', 'unexpected-witness', 'split-conditional', 'altstack-carry', 'wrong-amount'],
     'multisig': ['valid', 'wrong-key', 'wrong-order', 'altered-output', 'missing-sig', 'nonempty-dummy', 'leftover-stack'],
@@ -31,10 +31,12 @@ SATS = {
     'p2sh-p2wsh': ['valid', 'wrong-key', 'wrong-script-hash', 'wrong-witness-script-hash', 'wrong-amount', 'scriptsig-trailing-op', 'leftover-stack'],
     'p2tr-key': ['valid', 'wrong-key', 'wrong-amount', 'altered-output', 'altered-sequence', 'annex', 'annex-unsigned', 'hashtype-single', 'bad-sig-size', 'multi-input'],
     'p2tr-script': ['valid', 'wrong-key', 'wrong-amount', 'altered-output', 'control-parity', 'control-internal-key', 'control-node', 'control-leaf-version', 'control-truncated', 'wrong-script', 'annex',
-                    'extra-witness-item', 'leftover-stack', 'false-result', 'op-success', 'unknown-leaf-version', 'empty-script', 'multi-input', 'many-checks', 'many-checks-annex'],
+                    'extra-witness-item', 'leftover-stack', 'false-result', 'op-success', 'unknown-leaf-version', 'empty-script', 'multi-input', 'many-checks', 'many-checks-annex', 'p2sh-shaped-leaf'],
     'p2wsh-timelock': ['csv-ok', 'csv-too-early', 'csv-equal', 'csv-highbits-ok', 'csv-highbits-too-early', 'csv-disabled-bit-in-tx', 'csv-disabled-bit-in-script', 'csv-type-mismatch', 'csv-version1',
                        'cltv-ok', 'cltv-too-early', 'cltv-equal', 'cltv-type-mismatch', 'cltv-final-sequence', 'cltv-time-ok'],
     'p2sh-timelock': ['csv-ok', 'csv-too-early', 'csv-highbits-too-early', 'csv-version1', 'cltv-ok', 'cltv-too-early', 'cltv-final-sequence', 'cltv-type-mismatch'],
+    # witness items are bytes, whatever they look like as text; a witness script is run as it is, whatever it looks like
+    'p2wsh-hashlock': ['valid', 'wrong-preimage', 'digits-only-preimage', 'two-digit-items', 'p2sh-shaped-witness-script', 'p2sh-shaped-witness-script-inner-fails', 'opcode-name-preimage', 'leftover-stack'],
 }
 FLAGMODS = {
     'p2pk': ['NULLFAIL', 'CLEANSTACK', 'SIGPUSHONLY+', 'LOW_S', 'STRICTENC'],
@@ -50,7 +52,14 @@ FLAGMODS = {
     'p2tr-script': ['TAPROOT', 'DISCOURAGE_OP_SUCCESS', 'DISCOURAGE_UPGRADABLE_TAPROOT_VERSION', 'DISCOURAGE_UPGRADABLE_PUBKEYTYPE'],
     'p2wsh-timelock': ['CHECKSEQUENCEVERIFY', 'CHECKLOCKTIMEVERIFY', 'WITNESS'],
     'p2sh-timelock': ['CHECKSEQUENCEVERIFY', 'CHECKLOCKTIMEVERIFY', 'P2SH'],
+    'p2wsh-hashlock': ['WITNESS', 'P2SH', 'CLEANSTACK', 'MINIMALIF'],
 }
+
+
+def digits_only_bytes(rng):
+    """byte strings whose hexadecimal text consists of decimal digits only ("51", "1234", "00", ...)"""
+    return rng.choice([b'\x51', b'\x10', b'\x12\x34', b'\x00', b'\x01', b'\x99', b'\x00\x10', b'\x20\x21\x22\x23', b'\x98\x76\x54\x32\x10', b'\x16', b'\x17', b'\x81', b'\x00\x00',
+                       bytes(rng.choice([0, 1, 2, 3, 4, 5, 6, 7, 8, 9]) * 16 + rng.choice([0, 1, 2, 3, 4, 5, 6, 7, 8, 9]) for _ in range(rng.choice([1, 2, 3, 4, 8, 9, 10, 20, 32])))])
 
 
 def build(rng, otype, sat):
@@ -81,7 +90,7 @@ def build(rng, otype, sat):
         redeem = rsign.multisig_script(k, pubs3)
         spk = rsign.spk_p2sh(redeem)
     elif otype == 'p2sh-hashlock':
-        pre = rsign.rnd_bytes(rng, rng.choice([1, 20, 32]))
+        pre = rsign.rnd_bytes(rng, rng.choice([1, 20, 32])) if rng.random() < 0.6 else digits_only_bytes(rng)
         redeem = bytes([OP_SHA256]) + push_only(sha256(pre)) + bytes([OP_EQUAL])
         spk = rsign.spk_p2sh(redeem)
     elif otype == 'p2wpkh':
@@ -99,6 +108,23 @@ def build(rng, otype, sat):
         wscript = rng.choice([rsign.spk_p2pk(pub), rsign.multisig_script(2, pubs3)])
         redeem = rsign.spk_p2wsh(wscript)
         spk = rsign.spk_p2sh(redeem)
+    elif otype == 'p2wsh-hashlock':
+        if sat in ('digits-only-preimage', 'two-digit-items'):
+            pre = digits_only_bytes(rng)
+        elif sat == 'opcode-name-preimage':
+            pre = rng.choice([b'OP_1', b'add', b'OP_DUP', b'0x51', b'[OP_1]', b'hash160(00)', b'-1', b'1e3', b' 12'])
+        else:
+            pre = rng.choice([digits_only_bytes(rng), rsign.rnd_bytes(rng, rng.choice([1, 2, 16, 32]))])
+        if sat.startswith('p2sh-shaped'):
+            # a witness script that LOOKS like a pay-to-script-hash output: consensus just runs it (HASH160 <h> EQUAL)
+            pre = bytes([OP_RETURN]) if sat.endswith('inner-fails') else rng.choice([bytes([OP_1]), bytes([OP_1, OP_1, OP_ADD]), bytes([OP_0]), bytes([OP_NOP, OP_NOP])])
+            wscript = bytes([OP_HASH160]) + push_only(hash160(pre)) + bytes([OP_EQUAL])
+        elif sat == 'two-digit-items':
+            pre2 = digits_only_bytes(rng)
+            wscript = bytes([OP_SHA256]) + push_only(sha256(pre)) + bytes([OP_EQUALVERIFY, OP_SHA256]) + push_only(sha256(pre2)) + bytes([OP_EQUAL])
+        else:
+            wscript = rng.choice([bytes([OP_SHA256]) + push_only(sha256(pre)) + bytes([OP_EQUAL]), bytes([OP_HASH256]) + push_only(sha256(sha256(pre))) + bytes([OP_EQUAL]), push_only(pre) + bytes([OP_EQUAL])])
+        spk = rsign.spk_p2wsh(wscript)
     elif otype in ('p2wsh-timelock', 'p2sh-timelock'):
         # <n> CSV|CLTV DROP <pub> CHECKSIG ; the transaction fields are chosen per satisfaction below
         is_csv = sat.startswith('csv')
@@ -136,10 +162,14 @@ def build(rng, otype, sat):
             reps = rng.choice([3, 4, 5])
             tap_script = b''.join(bytes([OP_DUP]) + push_only(xpk) + bytes([OP_CHECKSIGVERIFY]) for _ in range(reps - 1)) + push_only(xpk) + bytes([OP_CHECKSIG])
             kind = 'checksig'
+        elif sat == 'p2sh-shaped-leaf':
+            pre = rng.choice([bytes([OP_RETURN]), bytes([OP_1]), bytes([OP_0])])
+            tap_script = bytes([OP_HASH160]) + push_only(hash160(pre)) + bytes([OP_EQUAL])
+            kind = 'hashlock'
         elif kind == 'checksig':
             tap_script = push_only(xpk) + bytes([OP_CHECKSIG])
         elif kind == 'hashlock':
-            pre = rsign.rnd_bytes(rng, 16)
+            pre = rsign.rnd_bytes(rng, 16) if rng.random() < 0.5 else digits_only_bytes(rng)
             tap_script = bytes([OP_SHA256]) + push_only(sha256(pre)) + bytes([OP_EQUAL])
         else:
             tap_script = push_only(xpk) + bytes([OP_CHECKSIG]) + push_only(secp.xonly_from_sec(sk3)) + bytes([OP_CHECKSIGADD, OP_2, OP_NUMEQUAL])
@@ -262,6 +292,11 @@ def build(rng, otype, sat):
             ssig = push_only(r2)
     elif otype == 'p2wsh-timelock':
         wit = [wsig(wscript), wscript]
+    elif otype == 'p2wsh-hashlock':
+        if sat == 'two-digit-items':
+            wit = [pre2, pre, wscript]
+        else:
+            wit = [pre if sat != 'wrong-preimage' else pre + b'\x00', wscript]
     elif otype == 'p2sh-timelock':
         ssig = push_only(lsig(redeem)) + push_only(redeem)
     elif otype == 'p2sh-p2wpkh':
@@ -637,7 +672,7 @@ def main():
     part = Partial()
     doc_pairs(bindir, part)
     rep.merge(part.dump())
-    n = 60 if a.tier == 'quick' else 1200
+    n = 200 if a.tier == 'quick' else 1200
     for r in parallel(worker, [(bindir, i, n, a.tier) for i in range(16)]):
         rep.merge(r)
     return rep.finish(
